@@ -10,3 +10,10 @@ Definition c20_main_base (udec : BinNums.Z -> option BinNums.Z) (linesep : text)
   main_base Bits.Gen.CliTable.config_defaults udec linesep Bits.Gen.CliTable.table.
 Definition c20_format_option := format_option.
 Definition c20_convert (udec : BinNums.Z -> option BinNums.Z) := reconvert udec (cons (BinNums.Zpos (BinNums.xO (BinNums.xI (BinNums.xO BinNums.xH)))) nil).
+(* do the model's Config of `bits <sub> <cli>` carry these input / output formats? *)
+Definition c20_io_formats (has_toml : bool) (sub : bytes) (cli : list (key * option bytes)) (ftoml fjson : option dict)
+           (fin fout : pyval) : result bool :=
+  match c20_main_config has_toml sub cli ftoml fjson with
+  | Ok c => Ok (andb (pyval_eqb (dgetd k_input_format c PNone) fin) (pyval_eqb (dgetd k_output_format c PNone) fout))
+  | Err e => Err e
+  end.
